@@ -123,7 +123,7 @@ func (opts algorithmIRIExpansion) Call() (ExpandedIRI, error) {
 
 			if valuePrefixSuffix[0] == "_" {
 				return ExpandedIRIasBlankNode(valueString), nil
-			} else if len(valuePrefixSuffix[1]) > 2 && valuePrefixSuffix[1][:2] == "//" {
+			} else if strings.HasPrefix(valuePrefixSuffix[1], "//") {
 				return ExpandedIRIasIRI(valueString), nil
 			}
 
@@ -176,7 +176,7 @@ func (opts algorithmIRIExpansion) Call() (ExpandedIRI, error) {
 			// [dpb] spec seems amgiguous given [6.2] checked it as an IRI, and relative IRI validation seems difficult to get right (vs unspecified compact IRI)
 			// [dpb] following seems hacky; #t0118, #tc022, t0109
 
-			if !strings.Contains(valueString, "/") && !strings.Contains(valueString, "#") && !strings.Contains(valueString, "?") {
+			if hasIRIScheme(valuePrefixSuffix[0]) {
 				return ExpandedIRIasIRI(valueString), nil
 			}
 		}
@@ -213,4 +213,18 @@ func (opts algorithmIRIExpansion) Call() (ExpandedIRI, error) {
 	}
 
 	return ExpandedIRIasRawValue{opts.value}, nil
+}
+
+// hasIRIScheme reports whether s matches the scheme production of RFC 3986 (ALPHA *( ALPHA / DIGIT / "+" / "-" / "." )).
+func hasIRIScheme(s string) bool {
+	for i := 0; i < len(s); i++ {
+		c := s[i]
+		switch {
+		case 'a' <= c && c <= 'z', 'A' <= c && c <= 'Z':
+		case i > 0 && ('0' <= c && c <= '9' || c == '+' || c == '-' || c == '.'):
+		default:
+			return false
+		}
+	}
+	return len(s) > 0
 }
